@@ -90,3 +90,19 @@ Proof.
   - intros p [<-|[<-|[<-|[]]]]; reflexivity.
   - vm_compute. reflexivity.
 Qed.
+
+(* floats, different base units: the re-based value is within (1/(1-u))^n - 1 relative of the exact
+   (real-arithmetic) re-basing, n = the number of floating-point operations change_base performs
+   (positions where both sides use the same base unit cost nothing), whenever no intermediate
+   overflows or underflows; any precision, either power algorithm *)
+From Coq Require Import Reals.
+From UomV Require Import Proofs.Tree Proofs.ErrBound.
+Theorem c06_float_rebase_relative_error :
+  forall prec emax (Hprec : Prec_gt_0 prec) (Hmax : Prec_lt_emax prec emax) lib
+         (Ul Ur : list (binary_float prec emax)) (d : list Z) (v : binary_float prec emax),
+    let t := change_base_tree prec emax Hprec Hmax lib Ul Ur d v in
+    Safe prec emax Hprec Hmax t ->
+    is_finite (change_base (CFfloat prec emax Hprec Hmax lib) Ul Ur d v) = true
+    /\ (Rabs (B2R (change_base (CFfloat prec emax Hprec Hmax lib) Ul Ur d v) - rebase_R prec emax Hprec Hmax lib Ul Ur d v)
+        <= (H prec ^ ops prec emax t - 1) * Rabs (rebase_R prec emax Hprec Hmax lib Ul Ur d v))%R.
+Proof. intros prec emax Hprec Hmax lib Ul Ur d v t St. exact (change_base_relerr prec emax Hprec Hmax lib Ul Ur d v St). Qed.
